@@ -533,6 +533,7 @@ fn build(su: &SeqSuite, cap: Cap, fl: (Flavour, Flavour), ops: &[Op]) -> Program
             spurious_park: None,
             preempt: None,
             stall: 0,
+            lock_spin: 0,
         },
         pre: 0,
     }
@@ -700,6 +701,7 @@ fn rec(
                     spurious_park: None,
                     preempt: None,
                     stall: 0,
+            lock_spin: 0,
                 },
                 pre: 0,
             };
